@@ -1,0 +1,30 @@
+//go:build verif
+
+// Verification contracts (comments only; compiled only with -tags verif).
+// Checked by /verif/bin/govc; see /verif/DESIGN.md.
+
+package standard
+
+//@ type Service
+//@   // established by New (parseAndCheckParameters rejects a nil submitter)
+//@   valid self.submitter != nil
+//@
+//@ // ---- C15: every sync committee member is subscribed, with its own committee positions, until the given epoch ----
+//@ func (*Service).calculateSubscriptions
+//@   requires forall k int :: 0 <= k && k < len(duties) ==> duties[k] != nil
+//@   loop 1
+//@     invariant -1 <= rangeindex && rangeindex < len(duties) && len(subscriptions) == rangeindex + 1
+//@     invariant forall k int :: 0 <= k && k <= rangeindex ==> subscriptions[k] != nil && subscriptions[k].ValidatorIndex == duties[k].ValidatorIndex && subscriptions[k].SyncCommitteeIndices == duties[k].ValidatorSyncCommitteeIndices && subscriptions[k].UntilEpoch == endEpoch
+//@   ensures len(result) == len(duties)
+//@   ensures forall k int :: 0 <= k && k < len(duties) ==> result[k] != nil && result[k].ValidatorIndex == duties[k].ValidatorIndex && result[k].SyncCommitteeIndices == duties[k].ValidatorSyncCommitteeIndices && result[k].UntilEpoch == endEpoch
+//@   modifies nothing
+//@
+//@ // the subscriptions submitted are the ones calculated for these duties, and the submitter's verdict is handed on
+//@ spec func submitted() bool
+//@ func (*Service).Subscribe
+//@   requires s != nil
+//@   requires forall k int :: 0 <= k && k < len(duties) ==> duties[k] != nil
+//@   assumes call SubmitSyncCommitteeSubscriptions#1 (err): (err == nil) == submitted()
+//@   at call SubmitSyncCommitteeSubscriptions#1: assert len(arg1) == len(duties) && (forall k int :: 0 <= k && k < len(duties) ==> arg1[k] != nil && arg1[k].ValidatorIndex == duties[k].ValidatorIndex && arg1[k].SyncCommitteeIndices == duties[k].ValidatorSyncCommitteeIndices && arg1[k].UntilEpoch == endEpoch)
+//@   ensures len(duties) > 0 ==> calls(SubmitSyncCommitteeSubscriptions) == 1 && ((result == nil) <==> submitted())
+//@   ensures len(duties) == 0 ==> calls(SubmitSyncCommitteeSubscriptions) == 0 && result == nil
